@@ -207,6 +207,7 @@ func C19() int {
 		}
 	})
 	c.Set("files", len(files))
+	raceVerdict(s, c)
 	c.Assume("replacement text is not itself e-mail-shaped; no --redactNamespaces / --redactFieldNames")
 	return c.Finish("multi-line files mixing grammar command lines, vocabulary soup in zones and other-component soup, under 2^3 of -n -b -i × 5 replacement texts (default, empty, Unicode, quotes/backslash, $-leading); the first pass's output FILE is fed back with the same flags and compared as bytes; distinct by file+flags, non-trivial when the first pass produced output")
 }
